@@ -356,7 +356,7 @@ impl Check for C07 {
     }
     fn dedup_bits(&self, tier: Tier) -> u32 {
         if tier.is_thorough() {
-            29
+            30
         } else {
             26
         }
